@@ -311,3 +311,96 @@ func TestC14_concurrent(t *testing.T) {
 		return checkC14Concurrent(c)
 	})
 }
+
+// C14/racingmoves: two callers offer a move at the same moment. The engine serialises them:
+// what it reports afterwards is the FEN of the game in which the accepted moves were played one
+// after the other, in some order - a move that is not legal once the other has been played must
+// have been refused.
+type racingCase struct {
+	FEN   string   `json:"fen"`
+	Moves []string `json:"moves"` // the game so far
+	A, B  string   // offered simultaneously
+	Reps  int      `json:"reps"`
+}
+
+var checkC14Racing = def("C14/racingmoves", func(c racingCase) error {
+	ctx := context.Background()
+	g, err := gen.GameCase{FEN: c.FEN, Moves: c.Moves}.Build()
+	if err != nil {
+		return err
+	}
+	// the outcomes the rules allow: for each order, play what is legal when its turn comes
+	valid := map[string]string{}
+	for _, order := range [][2]string{{c.A, c.B}, {c.B, c.A}} {
+		gg := g.Clone()
+		desc := ""
+		for _, mv := range order {
+			if m, ok := gg.Cur().Pos.FindMove(mv); ok {
+				gg.Push(m)
+				desc += mv + " accepted; "
+			} else {
+				desc += mv + " refused; "
+			}
+		}
+		valid[gg.Cur().FEN()] = desc
+	}
+	e := newPlainEngine()
+	both := 0
+	for rep := 0; rep < max(1, c.Reps); rep++ {
+		if err := e.Reset(ctx, c.FEN); err != nil {
+			return err
+		}
+		for _, mv := range c.Moves {
+			if err := e.Move(ctx, mv); err != nil {
+				return err
+			}
+		}
+		var wg sync.WaitGroup
+		var start atomic.Bool
+		errs := make([]error, 2)
+		for k, mv := range []string{c.A, c.B} {
+			k, mv := k, mv
+			wg.Add(1)
+			go func() {
+				defer wg.Done()
+				for !start.Load() {
+				}
+				errs[k] = e.Move(ctx, mv)
+			}()
+		}
+		start.Store(true)
+		wg.Wait()
+		got := e.Position()
+		if _, ok := valid[got]; !ok {
+			return fmt.Errorf("%s and %s offered at the same moment at %s (answers: %v, %v): the engine reports %q, which is the outcome of neither order (%v)", c.A, c.B, g.Cur().FEN(), errs[0], errs[1], got, valid)
+		}
+		if errs[0] == nil && errs[1] == nil {
+			both++
+		}
+	}
+	_, aLegal := g.Cur().Pos.FindMove(c.A)
+	_, bLegal := g.Cur().Pos.FindMove(c.B)
+	stats.Case("C14/racingmoves", stats.FP(c.FEN, fmt.Sprint(c.Moves), c.A, c.B), aLegal && bLegal && c.A != c.B, "two-legal-moves-raced")
+	return nil
+})
+
+func TestC14_racingmoves(t *testing.T) {
+	runRapid(t, "C14/racingmoves", 800, func(t *rapid.T) racingCase {
+		gc, g := gen.Game(t, 30)
+		legal := g.Cur().Pos.Legal()
+		c := racingCase{FEN: gc.FEN, Moves: gc.Moves, Reps: rapid.IntRange(20, 200).Draw(t, "reps")}
+		if len(legal) == 0 {
+			return c
+		}
+		c.A = legal[rapid.IntRange(0, len(legal)-1).Draw(t, "a")].String()
+		c.B = legal[rapid.IntRange(0, len(legal)-1).Draw(t, "b")].String()
+		return c
+	}, func(c racingCase) error {
+		if c.A == "" {
+			stats.Case("C14/racingmoves", 0, false, "no-legal-move")
+			return nil
+		}
+		stats.Sample("C14/racingmoves", c)
+		return checkC14Racing(c)
+	})
+}
